@@ -1504,22 +1504,42 @@ class _ReplaceNode(ast.NodeTransformer):
 
 
 def _order_before(stmts, anchor):
-    """Statements put in front of `anchor` (an inlined helper body) all carry the anchor's position for reports; for rules
-    that compare positions they get line numbers just below the anchor's, increasing in statement order: every node of the
-    k-th statement reads line (anchor - 1) + 0.5 + k / 10000.  Reports print the integer part + 1 ... the anchor's line."""
+    """Statements put in front of `anchor` (an inlined helper body) carry the anchor's position for reports; for rules that
+    compare positions every statement among them - nested ones too, in document order - gets a line number of its own just
+    below the anchor's: (anchor - 1) + 0.5 + k / 100000.  Reports round, i.e. print the anchor's line."""
     base = getattr(anchor, 'lineno', None)
     if base is None:
         return
-    base = int(base) if float(base) == int(base) else base
-    k = 0
+    lo = (int(base) - 1) + 0.5 if float(base) == int(base) else base - 0.001
+    k = [0]
+
+    def number(st):
+        k[0] += 1
+        ln = lo + k[0] / 100000.0
+        st.lineno = ln
+        for fld, val in ast.iter_fields(st):
+            vals = val if isinstance(val, list) else [val]
+            for v in vals:
+                if isinstance(v, ast.stmt):
+                    number(v)
+                elif isinstance(v, ast.ExceptHandler):
+                    k[0] += 1
+                    v.lineno = lo + k[0] / 100000.0
+                    if v.type is not None:
+                        for x in ast.walk(v.type):
+                            if hasattr(x, 'lineno'):
+                                x.lineno = v.lineno
+                    for s2 in v.body:
+                        number(s2)
+                elif isinstance(v, ast.AST):
+                    for x in ast.walk(v):
+                        if isinstance(x, ast.stmt):
+                            continue
+                        if hasattr(x, 'lineno'):
+                            x.lineno = ln
     for s_ in stmts:
-        if s_ is anchor:
-            continue
-        k += 1
-        ln = (int(base) - 1) + 0.5 + k / 10000.0 if float(base) == int(base) else base - (len(stmts) - k) / 1000000.0
-        for x in ast.walk(s_):
-            if isinstance(x, (ast.stmt, ast.expr, ast.ExceptHandler)) and hasattr(x, 'lineno'):
-                x.lineno = ln
+        if s_ is not anchor:
+            number(s_)
 
 
 def _stmt_heads(st):
